@@ -77,6 +77,7 @@ def correspondence(ctx):
             for b in pick:
                 cases.append(f'prof|{prof}|compare|f|b|{hexs(a)}|{hexs(b)}')
             cases.append(f'prof|{prof}|enforce|f|b|{hexs(a)}|')
+    cases += fuzz_cases(ctx, {4, 11})      # coverage-guided search of the tree under check (only when the source changed / thorough)
     res = run_cases(cases, ctx.work)
     known = known_bidi(ctx)
 
